@@ -1,6 +1,9 @@
 package sim
 
-import "fmt"
+import (
+	"fmt"
+	"strings"
+)
 
 // ScenOpts tunes the generic scenario generator.
 type ScenOpts struct {
@@ -307,6 +310,40 @@ func (g *Gen) swarmExtras(p *Plan, persistent, topo bool) {
 		}
 		if len(p.Knobs.ValidateCaps) > 0 {
 			p.Profile += "+validate-caps"
+		}
+	}
+	if persistent && g.chance(1, 4) {
+		// a second model: some targets are of another type, or of another version of the same type; its plugin rejects
+		// another token. Poisoned values are rewritten to the token of their target's model most of the time, and now and
+		// then to the other model's token (which the right plugin accepts)
+		p.Knobs.ModelB = map[string][2]string{}
+		mb := [2]string{ModelName, "2.0.0"}
+		if g.chance(1, 2) {
+			mb = [2]string{"othersim", ModelVersion}
+		}
+		for _, t := range p.Knobs.Targets {
+			if g.chance(1, 2) {
+				p.Knobs.ModelB[t] = mb
+			}
+		}
+		if len(p.Knobs.ModelB) == 0 {
+			p.Knobs.ModelB = nil
+		} else {
+			p.Profile += "+two-models"
+			for i := range p.Scenario {
+				for _, t := range p.Knobs.Targets { // (never range over the map: the draws below must not depend on its order)
+					ops := p.Scenario[i].Targets[t]
+					_, isB := p.Knobs.ModelB[t]
+					for j := range ops {
+						if !strings.Contains(ops[j].V, PoisonValue) {
+							continue
+						}
+						if (isB && !g.chance(1, 4)) || (!isB && g.chance(1, 8)) {
+							ops[j].V = strings.Replace(ops[j].V, PoisonValue, PoisonValueB, 1)
+						}
+					}
+				}
+			}
 		}
 	}
 	if topo && g.chance(1, 5) {
